@@ -1,8 +1,9 @@
 (* C19 -- serialized objects round-trip exactly; malformed archives are rejected safely.
    Only the property theorems; proofs are in Proofs.v (chunk reader), Loader.v (arbitrary input),
-   Roundtrip.v (load after save), Mutation.v (over-running length fields), Session.v (the session map format).
+   Roundtrip.v (load after save), Mutation.v (over-running length fields), Session.v (the session map format),
+   MutFull.v (every length field of a valid archive).
    jp is the external JSON parser (parse + compact re-serialisation), a parameter of the model. *)
-From CppcmsV Require Import Base.Tac C19.Defs C19.Proofs C19.Loader C19.Roundtrip C19.Mutation C19.SessDefs C19.Session.
+From CppcmsV Require Import Base.Tac C19.Defs C19.Proofs C19.Loader C19.Roundtrip C19.Mutation C19.MutFull C19.SessDefs C19.Session.
 Local Open Scope N_scope.
 
 (* 1. the repaired bounds test of archive::next_chunk_size, in size_t (mod 2^64) arithmetic:
@@ -103,6 +104,42 @@ Example mutation_nonvacuous :
   next_chunk_size ([9;9] ++ [4;0;0;0] ++ [1;2;3] ++ []) 2 = Err EFmtSize
   /\ next_chunk_size ([9;9] ++ [3;0;0;0] ++ [1;2;3] ++ []) 2 = Ok 3.
 Proof. split; vm_compute; reflexivity. Qed.
+
+(* 6d. every length field of a valid archive: hsplit t v a b says enc t v = a ++ <4-byte length field> ++ b for
+       one of the length fields the writer emits (chunk headers of PODs, strings, POD vectors, json texts,
+       container counts, pointer flags, at any nesting depth; theorem hsplit_is_length_field).  Replacing
+       that field by 4 bytes whose value exceeds the bytes that follow makes the load of the WHOLE object
+       fail with "Invalid archive_format", wherever the object is embedded. *)
+Theorem hsplit_is_length_field : forall t v a b,
+  hsplit t v a b -> exists h, blen h = 4 /\ enc t v = a ++ h ++ b.
+Proof. exact hsplit_enc. Qed.
+Print Assumptions hsplit_is_length_field.
+Theorem mutation_rejected_everywhere : forall jp t v a b, hsplit t v a b ->
+  forall pre post h', wt jp t v = true -> elems_ok t = true -> blen h' = 4 ->
+    blen b + blen post < le_val h' -> blen (pre ++ a ++ h' ++ b ++ post) < M64 ->
+    load jp t (pre ++ a ++ h' ++ b ++ post) (blen pre) = Err EFmtSize.
+Proof. exact mutated_header_rejected. Qed.
+Print Assumptions mutation_rejected_everywhere.
+Theorem mutated_archive_rejected : forall jp t v a b h',
+  hsplit t v a b -> wt jp t v = true -> elems_ok t = true ->
+  blen h' = 4 -> blen b < le_val h' -> blen (a ++ h' ++ b) < M64 ->
+  load jp t (a ++ h' ++ b) 0 = Err EFmtSize.
+Proof. exact MutFull.mutated_archive_rejected. Qed.
+Print Assumptions mutated_archive_rejected.
+Definition mx_t : ty := TSeq (TPtr TStr).
+Definition mx_v : value := VList ([VPtr None] ++ VPtr (Some (VBytes [97;98])) :: []).
+Definition mx_a : list N := count_chunk (blen ([VPtr None] ++ VPtr (Some (VBytes [97;98])) :: [])) ++ flat_map (enc (TPtr TStr)) [VPtr None] ++ (chunk [0] ++ []).
+Definition mx_b : list N := [97;98] ++ flat_map (enc (TPtr TStr)) [].
+Example mutation_everywhere_nonvacuous :
+  hsplit mx_t mx_v mx_a mx_b
+  /\ enc mx_t mx_v = mx_a ++ [2;0;0;0] ++ mx_b
+  /\ load (fun _ => None) mx_t (mx_a ++ [2;0;0;0] ++ mx_b) 0 = Ok (mx_v, 28)
+  /\ load (fun _ => None) mx_t (mx_a ++ [3;0;0;0] ++ mx_b) 0 = Err EFmtSize
+  /\ load (fun _ => None) mx_t (mx_a ++ [1;0;0;0] ++ mx_b) 0 = Ok (VList [VPtr None; VPtr (Some (VBytes [97]))], 27).
+Proof.
+  split; [|repeat split; vm_compute; reflexivity].
+  exact (hs_seq_elem (TPtr TStr) [VPtr None] _ [] _ _ (hs_ptr_in TStr _ _ _ (hs_str [97;98]))).
+Qed.
 
 (* 7. a successful load depends only on the bytes the archive had: appending data does not
       change it (the basis of 5, and of reading members one after the other) *)
